@@ -256,3 +256,39 @@ func H_C03_total() {
 	vassert(c03ValidValue(r, 0), "a builtin returns a value of a supported type or an error")
 	vreach("value")
 }
+
+// H_C08_format: the formatters never panic and terminate on every value: Marshal,
+// Preview, TypeOf, Compare, the Error methods of the error values natives return.
+func H_C08_format() {
+	d := 1 + vparam("deep", 0)
+	v := hGenValue(hkNull|hkBool|hkInt|hkStr|hkArr|hkObj, d, d, 1)
+	if nondetBool() {
+		v = c03Arg(true, true, false)
+	}
+	if nondetBool() {
+		c08Errors(v)
+		return
+	}
+	bs, err := Marshal(v)
+	vassert(err == nil && len(bs) > 0, "Marshal of a supported value succeeds")
+	p := Preview(v)
+	vassert(len(p) > 0 && len(p) <= 32, "Preview is short and never empty")
+	vassert(TypeOf(v) != "", "TypeOf names every supported value")
+	vassert(Compare(v, v) == 0 || v != v, "Compare is reflexive")
+	vreach("end")
+}
+
+func c08Errors(v any) {
+	var w any = []any{nondetBool()}
+	errs := []error{
+		&binopTypeError{"add", v, w}, &func0TypeError{"f", v}, &func1TypeError{"f", v, w}, &func2TypeError{"f", v, w, v},
+		&expectedObjectError{v}, &expectedArrayError{v}, &iteratorError{v}, &objectKeyNotStringError{v}, &arrayIndexNotNumberError{v},
+		&stringIndexNotNumberError{v}, &expectedStartEndError{v}, &arrayIndexTooLargeError{v}, &unaryTypeError{"negate", v},
+		&zeroDivisionError{v, w}, &zeroModuloError{v, w}, &formatRowError{"csv", v}, &exitCodeError{v, 5}, &invalidPathError{v}, &invalidPathIterError{v},
+		&func0WrapError{"f", v, &expectedArrayError{w}}, &func1WrapError{"f", v, w, &expectedArrayError{w}}, &func2WrapError{"f", v, w, v, &expectedArrayError{w}},
+		(*HaltError)(&exitCodeError{v, 1}),
+	}
+	e := errs[nondetChoice(len(errs))]
+	vassert(len(e.Error()) > 0, "every error value has a message")
+	vreach("end")
+}
